@@ -247,10 +247,27 @@ func generateSearchInstruction(l *ast.AstExpression, offset int, state *GenState
 func generateLoop(l *ast.AstLoop, offset int, state *GenState) ([]SearchInstruction, error) {
 	result := []SearchInstruction{}
 
+	// the body is generated once per mandatory iteration and once more for
+	// the optional ones; names the body declares belong to the copy that
+	// declares them, so each further copy starts from the names known
+	// before the loop
+	outer_variables := make(map[string]int)
+	for name, value := range state.variables {
+		outer_variables[name] = value
+	}
+	forget_body_names := func() {
+		for name := range state.variables {
+			if _, prs := outer_variables[name]; !prs {
+				delete(state.variables, name)
+			}
+		}
+	}
+
 	current_offset := offset
 	if l.Min > 0 && l.Name == "" {
 		for i := 0; i < l.Min; i++ {
 			// I kinda hate generating this everytime but I also hate the other way where we have to adjust offset values to keep pointers in the body lined up
+			forget_body_names()
 			body, gen_error := generateSearchInstruction(&l.Body, current_offset, state)
 			if gen_error != nil {
 				return []SearchInstruction{}, gen_error
@@ -264,6 +281,7 @@ func generateLoop(l *ast.AstLoop, offset int, state *GenState) ([]SearchInstruct
 		return result, nil
 	}
 
+	forget_body_names()
 	body, gen_error := generateSearchInstruction(&l.Body, current_offset+1, state)
 	if gen_error != nil {
 		return []SearchInstruction{}, gen_error
